@@ -426,6 +426,7 @@ typedef struct {
 	                             certificate and RSA client certificate: 1; ignored elsewhere (see tp_chain_of) */
 	int mismatch_key;         /* server: private key that does not match the chain; client: same for the client certificate */
 	/* hooks for property-specific configuration just before reset */
+	unsigned min_ch_len;       /* client: br_ssl_client_set_min_clienthello_len (0 = no padding) */
 	void (*pre_reset)(void *ep, void *arg);
 	void *pre_reset_arg;
 } tp_cfg;
@@ -679,6 +680,7 @@ tp_ep_start(tp_ep *ep, const tp_cfg *cfg)
 	}
 	if (cfg->role == 0) {
 		const char *sni = cfg->sni == NULL ? "localhost" : (cfg->sni[0] ? cfg->sni : NULL);
+		br_ssl_client_set_min_clienthello_len(ep->cc, (uint16_t)cfg->min_ch_len);
 		r = br_ssl_client_reset(ep->cc, sni, cfg->resume);
 	} else {
 		r = br_ssl_server_reset(ep->sc);
